@@ -96,6 +96,25 @@ def opsC15 : List (String × Handler) := [
         | _, _ => "bad-op"
       | _, _, _, _, _, _, _, _, _ => "bad-op"
     | _ => "bad-op"),
+  -- w.sendc … <cancelAt|_>: w.send under a context cancelled before call k; <ver> <seed> <pk> <wc|_> <sub|_> <net|_> <code> <state> <acctErr> <sendErr> <nMsgs> <waitMs> <polls>
+  ("w.sendc", fun
+    | [ver, _seed, pk, wc, sub, net, code, st, acctErr, sendErr, nMsgs, wait, polls, cancel] =>
+      match ver.toNat?, hexArg pk, optIntArg wc, optNatArg sub, optIntArg net, cellArg code, parseAcct st,
+            nMsgs.toNat?, wait.toNat? with
+      | some ver, some pk, some wc, some sub, some net, some code, some st, some nMsgs, some wait =>
+        match Version.ofGoIndex? ver, parsePolls polls (wait / 10) with
+        | some v, some polls =>
+          match address sha256 code v pk (walletOpts wc sub net) with
+          | .ok self =>
+            let sc : Script := { acct := if acctErr == "1" then .err "scripted" else .ok st,
+                                 sendErr := sendErr == "1", polls := polls }
+            (match optNatArg cancel with
+              | some c => sendOut v (sendV2Ctx confirmLoop v self nMsgs sc wait c)
+              | none => "bad-op")
+          | _ => "bad-op"
+        | _, _ => "bad-op"
+      | _, _, _, _, _, _, _, _, _ => "bad-op"
+    | _ => "bad-op"),
   ("prim.sha512", fun
     | [m] => match hexArg m with
       | some m => hexOut (Tongo.Sha512.hash m)
